@@ -7,3 +7,4 @@ open Photon.Sync
 #print axioms C01_no_stuck_at_quiescence
 #print axioms Photon.SemLog.C02_mv_conservation
 #print axioms Photon.SemLog.C02_mv_no_late_write
+#print axioms Photon.SemLog.C02_mv_balance
